@@ -308,10 +308,11 @@ def deserialize_address(address, encoding=None, network=None):
             prefix = address[:address.rfind('1')].lower()
             networks = network_by_value('prefix_bech32', prefix)
             witness_type = 'segwit' if not witver else 'taproot'
-            if len(public_key_hash) == 20:
-                script_type = 'p2wpkh'
+            if witver:
+                # witness version 1..16: the script is OP_n <program>, whatever the program length
+                script_type = 'p2tr'
             else:
-                script_type = 'p2wsh' if not witver else 'p2tr'
+                script_type = 'p2wpkh' if len(public_key_hash) == 20 else 'p2wsh'
             return {
                 'address': address,
                 'encoding': 'bech32',
